@@ -105,6 +105,33 @@ def callees(model, fi):
   return out
 
 
+def conversion_try_rule(model, rep, rule):
+  """Nothing in the try that guards the conversion depends on the arguments of
+  the call: an error the call itself would raise (argument binding) must not be
+  taken for a failed conversion, which is remembered in the negative cache."""
+  cc = model.func(API, 'converted_call')
+  conv = [c for c in ast.walk(cc.node) if isinstance(c, ast.Call) and
+          core.dotted(c.func) == '_convert_actual']
+  trys = [t for t in ast.walk(cc.node) if isinstance(t, ast.Try) and conv and any(
+      x is conv[0] for b in t.body for x in ast.walk(b))]
+  if len(trys) != 1:
+    raise core.AnalysisError('converted_call: the try around _convert_actual was not found')
+  argnames = {'args', 'kwargs', 'effective_args'}
+  leaks = []
+  for st in trys[0].body:
+    for c in ast.walk(st):
+      if isinstance(c, ast.Call) and any(
+          isinstance(n, ast.Name) and n.id in argnames
+          for a in list(c.args) + [k.value for k in c.keywords] for n in ast.walk(a)):
+        leaks.append(core.norm(c)[:70])
+  rep.check(not leaks, rule, '%s:conversion-try-does-not-touch-arguments' % cc.site,
+            'a statement inside the try that guards the conversion works on the '
+            'arguments of the call: if it fails (wrong arity, a __repr__ that '
+            'raises) the target is treated as unconvertible, run unconverted and '
+            'remembered as such', {'calls': leaks}, line=trys[0].lineno,
+            witness='g(1) for def g(a, b) at verbosity 2: g is never converted again')
+
+
 def check(model, rep, tier):
   rep.not_decided = ('histories and schedules: the check decides only the '
                      'necessary locking / keying / statelessness structure')
@@ -122,8 +149,35 @@ def check(model, rep, tier):
   g = pycfg.CFG(fn)
 
   # ---- cache stores
+  def _is_cache(e):
+    # self._cache[...] directly or through a local alias of a bucket
+    t = core.norm(e)
+    if 'self._cache[' in t:
+      return True
+    try:
+      return 'self._cache[' in tpl.xnorm(tf, e, e)
+    except Exception:
+      return False
   stores = [n for n in ast.walk(fn) if isinstance(n, ast.Assign) and any(
-      'self._cache[' in core.norm(t) for t in n.targets)]
+      isinstance(t, ast.Subscript) and (_is_cache(t) or _is_cache(t.value))
+      for t in n.targets)]
+  # every access that may create a bucket (cache.__getitem__ inserts on a miss)
+  # is inside the lock, or follows a positive, non-inserting `has` test
+  for sub in [x for x in ast.walk(fn) if isinstance(x, ast.Subscript) and
+              core.norm(x.value) == 'self._cache']:
+    ctx = _enclosing_withs(fn, sub)
+    locked = 'self._cache_lock' in ctx
+    after_has = any(isinstance(c, tuple) and c[0] == 'T' and
+                    c[1].startswith('self._cache.has(') for c in ctx)
+    rep.check(locked or after_has, 'CACHE-LOCK',
+              '%s:bucket-access(%s)' % (tf.site, 'locked' if locked else (
+                  'after-has' if after_has else 'unguarded')),
+              'self._cache[fn] creates the per-code-object bucket when it is '
+              'missing: outside the lock two threads each create their own, the '
+              're-check under the lock looks at an orphan and the function is '
+              'transformed twice', {'context': [str(c) for c in ctx]},
+              line=sub.lineno,
+              witness='two threads requesting a fresh code object at once')
   sup = [c for c in ast.walk(fn) if isinstance(c, ast.Call) and isinstance(
       c.func, ast.Attribute) and c.func.attr == 'transform_function' and
          isinstance(c.func.value, ast.Call) and core.dotted(c.func.value.func) == 'super']
@@ -417,6 +471,8 @@ def check(model, rep, tier):
               'second call of the same function outside it')
   if ncalls < 5:
     raise core.AnalysisError('converted_call: only %d _call_unconverted sites' % ncalls)
+
+  conversion_try_rule(model, rep, 'CACHE-ALLOWLIST')
 
   # ---------------------------------------------------------------- CACHE-LOCKORDER
   locks = {}   # function -> set of lock names acquired directly
